@@ -120,6 +120,25 @@ func appendIfReferencedGroupByExpression(groupByExpressions []pgsql.Expression, 
 	}
 }
 
+// constantGroupingKeyOrdinals returns GROUP BY ordinals for the non-aggregate select items of an aggregating
+// projection. It is used when none of the grouping keys references a binding (literals, parameters):
+// NonAggregateGroupByExpressions leaves such expressions out because PostgreSQL rejects a bare constant in
+// GROUP BY, but without any GROUP BY the select aggregates over zero input rows into one row, where Cypher
+// has no group and therefore no row. Grouping by select-list position keeps the grouping.
+func constantGroupingKeyOrdinals(selectItems []pgsql.SelectItem) ([]pgsql.Expression, error) {
+	var ordinals []pgsql.Expression
+
+	for idx, selectItem := range selectItems {
+		if containsAggregate, err := ContainsAggregateFunction(selectItem); err != nil {
+			return nil, err
+		} else if !containsAggregate {
+			ordinals = append(ordinals, pgsql.NewLiteral(idx+1, pgsql.Int))
+		}
+	}
+
+	return ordinals, nil
+}
+
 func appendNonAggregateGroupByExpressions(groupByExpressions []pgsql.Expression, expressions ...pgsql.Expression) ([]pgsql.Expression, error) {
 	for _, expression := range expressions {
 		nextGroupByExpressions, err := NonAggregateGroupByExpressions(expression)
